@@ -47,7 +47,7 @@ type c12Params struct {
 func (c12) ID() string    { return "C12" }
 func (c12) Level() string { return "exploration" }
 func (c12) Rule() string {
-	return "seeded API histories on the stream stack, five families: (cut) a writer sends N records and then closes / half-closes / does nothing while the transport of that direction ends before or inside a drawn record at a drawn byte offset (thorough: every offset of small records), the reader keeps calling Read after the end; (alert) after a clean handshake a scripted peer sends protected alerts of every level and a range of descriptions, single or in runs; (early-app) a scripted peer sends application data after k handshake messages; (cancel) HandshakeContext is cancelled while the peer stalls after k handshake messages; (api) sequences of Close / CloseWrite / Write / Read / Handshake on one end, incl. before the handshake. Oracle: a small state machine per end - delivered bytes are a prefix of what the peer wrote made of whole records; io.EOF only after everything written was delivered and only on close_notify or a cut exactly on a record boundary; a cut inside a record gives io.ErrUnexpectedEOF; every later Read repeats the failure and delivers nothing; after Close every call fails and a second Close reports net.ErrClosed; Write after CloseWrite fails; a failed handshake stays failed; early application data is never delivered; a cancelled handshake returns the context's error. distinct = distinct parameter vectors; non-trivial = the event under test happened"
+	return "seeded API histories on the stream stack, five families: (cut) a writer sends N records and then closes / half-closes / does nothing while the transport of that direction ends before or inside a drawn record at a drawn byte offset (thorough: every offset of small records), the reader keeps calling Read after the end; (alert) after a clean handshake a scripted peer sends protected alerts of every level and a range of descriptions, single or in runs; (early-app) a scripted peer sends application data after k handshake messages; (cancel) HandshakeContext is cancelled while the peer stalls after k handshake messages; (hs-timeout) the connection deadline expires during the handshake because the peer is slow, is cleared, and the peer's messages arrive late; (api) sequences of Close / CloseWrite / Write / Read / Handshake on one end, incl. before the handshake. Oracle: a small state machine per end - delivered bytes are a prefix of what the peer wrote made of whole records; io.EOF only after everything written was delivered and only on close_notify or a cut exactly on a record boundary; a cut inside a record gives io.ErrUnexpectedEOF; every later Read repeats the failure and delivers nothing; after Close every call fails and a second Close reports net.ErrClosed; Write after CloseWrite fails; a failed handshake stays failed; early application data is never delivered; a cancelled handshake returns the context's error. distinct = distinct parameter vectors; non-trivial = the event under test happened"
 }
 func (c12) Components() (real, stub []string) {
 	return []string{"tlcp.Conn (instrumented): Read/Write/Close/CloseWrite/HandshakeContext, alert handling, error latching", "the handshake-context interrupter goroutine (real, unmanaged; its transport Close is awaited as an external event)"},
@@ -102,6 +102,11 @@ func drawC12(src *vs.Src) *c12Params {
 		p.Mode = "cancel"
 		p.Role = pickStr(src, []string{"client", "server"})
 		p.Step = src.Intn(4)
+		if src.Bool(1, 2) {
+			// instead of cancelling a context: the connection's deadline expires while the peer is slow; the
+			// deadline is then cleared and the peer's messages arrive late
+			p.Mode = "hs-timeout"
+		}
 	default:
 		p.Mode = "api"
 		n := 2 + src.Intn(6)
@@ -130,7 +135,7 @@ func (c12) Run(c *Case, src *vs.Src) *Result {
 	switch p.Mode {
 	case "cut":
 		c12Cut(c, src, p, r)
-	case "alert", "early-app", "cancel":
+	case "alert", "early-app", "cancel", "hs-timeout":
 		c12Scripted(c, src, p, r)
 	case "api":
 		c12API(c, src, p, r)
@@ -342,9 +347,16 @@ func c12Scripted(c *Case, src *vs.Src, p *c12Params, r *Result) {
 	defer cancel()
 	stalled := false
 	w.Go("real", func() {
-		if p.Mode == "cancel" {
+		switch p.Mode {
+		case "cancel":
 			hsErr = h.TReal.HandshakeContext(ctx)
-		} else {
+		case "hs-timeout":
+			h.TReal.SetDeadline(vs.Now().Add(time.Second))
+			hsErr = h.Real.Handshake()
+			h.TReal.SetDeadline(time.Time{})
+			// the slow peer resumes at t = 2 s (and waits 400 ms for answers): be back just after that
+			vs.Sleep(1100 * time.Millisecond)
+		default:
 			hsErr = h.Real.Handshake()
 		}
 		hs2 = h.Real.Handshake()
@@ -379,11 +391,13 @@ func c12Scripted(c *Case, src *vs.Src, p *c12Params, r *Result) {
 			}
 			pr.SendApp([]byte("data after the alerts"))
 			pr.Run(o, []string{"rAPP"})
-		case "early-app", "cancel":
+		case "early-app", "cancel", "hs-timeout":
 			sends := 0
-			for _, op := range script {
+			rest := script
+			for i, op := range script {
 				if op[0] != 'r' {
 					if sends == p.Step {
+						rest = script[i:]
 						break
 					}
 					sends++
@@ -392,7 +406,14 @@ func c12Scripted(c *Case, src *vs.Src, p *c12Params, r *Result) {
 					return
 				}
 			}
-			if p.Mode == "early-app" {
+			if p.Mode == "hs-timeout" {
+				// slow: the rest of the script (and some data) comes two seconds later, after the deadline
+				vs.Sleep(2 * time.Second)
+				if out := pr.Run(o, rest); out.Err == nil {
+					pr.SendApp([]byte("early bird"))
+				}
+				pr.Run(o, []string{"rAPP"})
+			} else if p.Mode == "early-app" {
 				pr.SendApp([]byte("too early"))
 				pr.Run(o, []string{"rAPP"})
 			} else {
@@ -428,6 +449,14 @@ func c12Scripted(c *Case, src *vs.Src, p *c12Params, r *Result) {
 		}
 		if hs2 == nil || readData > 0 {
 			r.Violate("not-latched", sigp+" usable-after-cancel", "after a cancelled handshake: Handshake again = %v, bytes read %d", hs2, readData)
+		}
+	case "hs-timeout":
+		if hsErr == nil || !isTimeout(hsErr) {
+			r.Violate("setup", sigp+" no-timeout", "Handshake with a deadline one second ahead and a peer that stalls for two returned %v", hsErr)
+			return
+		}
+		if hs2 == nil || readData > 0 || wErr == nil {
+			r.Violate("not-latched", sigp+" usable-after-failed-handshake", "the first Handshake failed with %v (deadline); after the deadline was cleared and the peer's late messages arrived: Handshake again = %v, Read delivered %d bytes (%v), Write = %v", hsErr, hs2, readData, reads, wErr)
 		}
 	case "early-app":
 		if hsErr == nil {
